@@ -53,6 +53,14 @@ theorem lookup_isolated (s s' : Overlay) (op : Op) (l path : String) (hl : l ≠
 theorem lookup_spec (s : Overlay) (l path : String) :
     Overlay.lookup s l path = (layer s l).bind fun c => Ytk.lookup c path := lookup_eq s l path
 
+/-- per-layer refinement: after any history, the content of layer `l` is what a standalone
+    document (starting empty) holds after exactly the steps of the history that name `l`
+    (`runDoc` / `stepDoc`: the same edits with the layer name ignored) -/
+theorem layer_refinement (ops : List Op) (s : Overlay) (l : String) (h : run [] ops = .ok s) :
+    runDoc [] (ops.filter fun op => op.target == l) = .ok (layerOrEmpty s l) := by
+  have := run_doc l ops h
+  simpa [layerOrEmpty, layer] using this
+
 /-! ### LookupAny: the hit from the earliest layer that has one -/
 
 theorem lookupAny_spec (s : Overlay) (path : String) (n : Node) :
@@ -98,6 +106,12 @@ theorem lookupAny_none (s : Overlay) (path : String) :
     `Search` result tagged with the layer name -/
 theorem search_spec (f : Scalar → Bool) (s : Overlay) :
     Overlay.search f s = s.flatMap fun q => (Ytk.search f q.2).map fun path => (q.1, path) := rfl
+
+/-- the same by layer names, as the code iterates (`names` is duplicate-free: `layerNames_nodup`) -/
+theorem search_by_layer_names (f : Scalar → Bool) (s : Overlay) (h : (layerNames s).Nodup) :
+    Overlay.search f s =
+      (layerNames s).flatMap fun l => (Ytk.search f (layerOrEmpty s l)).map fun path => (l, path) :=
+  search_by_names f s h
 
 /-- …and a layer's own result is exactly the flattened paths whose leaf satisfies `f` -/
 theorem search_layer_spec (f : Scalar → Bool) (c : AMap Node) :
